@@ -38,3 +38,19 @@ package jwt
 //@   let now = call(TimeFunc).Unix()
 //@   ensures [C07.jwt-claims-window] result == nil ==> (num_ok(m["exp"]) && num_val(m["exp"]) != 0 ==> now <= num_val(m["exp"])) && (num_ok(m["iat"]) && num_val(m["iat"]) != 0 ==> now >= num_val(m["iat"])) && (num_ok(m["nbf"]) && num_val(m["nbf"]) != 0 ==> now >= num_val(m["nbf"]))
 //@   ensures [C07.jwt-claims-window] result != nil ==> typeis(result, *ValidationError) && ((num_ok(m["exp"]) && num_val(m["exp"]) != 0 && now > num_val(m["exp"])) || (num_ok(m["iat"]) && num_val(m["iat"]) != 0 && now < num_val(m["iat"])) || (num_ok(m["nbf"]) && num_val(m["nbf"]) != 0 && now < num_val(m["nbf"])))
+
+// ---------------------------------------------------------------- C15: issuer and audience claims
+//@ func verifyIss
+//@   pure
+//@   ensures [C15.issuer-comparison] result == (iss == "" ? !required : iss == cmp)
+//@ func (MapClaims).VerifyIssuer
+//@   ensures [C15.issuer-comparison] result == ((typeis(m["iss"], string) ? unbox(m["iss"], string) : "") == "" ? !req : unbox(m["iss"], string) == cmp)
+//@ func verifyAud
+//@   pure
+//@   ensures [C15.audience-comparison] result == (len(aud) == 0 ? !required : insl(aud, cmp))
+//@   invariant loop#1 [C15.audience-comparison] len(aud) > 0 && $i <= len(aud) && (forall j int :: 0 <= j && j < $i ==> aud[j] != cmp)
+// VerifyAudience: a single string audience must equal cmp; an absent or ill-typed audience never verifies.
+//@ func (MapClaims).VerifyAudience
+//@   ensures [C15.audience-comparison] typeis(m["aud"], string) ==> result == (unbox(m["aud"], string) == cmp)
+//@   ensures [C15.audience-comparison] !("aud" in m) ==> !result
+//@   invariant loop#1 true
